@@ -13,7 +13,8 @@ def run(ctx):
     ctx.partial += [
         "modelled + proved (every vector, argument, oracle, set of panicking Drops): retain, dedup_by, dedup_by_key, truncate, clear, pop, pop_if, "
         "remove, swap_remove, push, insert, extend_from_slice_clone, extend_from_within_clone, resize, resize_with, append, drain(+keep_rest), "
-        "extract_if, into_iter, map_in_place, BumpVec::splice (any size_hint of the source, a panicking Drop inside Splice::drop), drop of the owner; "
+        "extract_if, into_iter, map_in_place, BumpVec::splice (any size_hint of the source incl. a LYING one whose reservation panics with capacity "
+        "overflow in the middle of Splice::drop, a panicking Drop inside Splice::drop), drop of the owner; "
         "MutBumpVecRev: push, pop, pop_if, clear, truncate, insert, remove, swap_remove, extend_from_slice_clone, resize, resize_with, append, "
         "into_iter, drop; partition (in Props/C16); history level: every finite sequence of the 18 single-vector operations "
         "(history_drops_once, history_never_drops_twice)",
